@@ -823,6 +823,7 @@ class _FunctionInformationCollector(ast.RopeNodeVisitor):
         self.postwritten = OrderedSet()
         self.host_function = True
         self.conditional = False
+        self.post_conditional = False
         self.globals_ = OrderedSet()
         self.nonlocals_ = OrderedSet()
         self.surrounded_by_loop = 0
@@ -853,7 +854,8 @@ class _FunctionInformationCollector(ast.RopeNodeVisitor):
                 self.postread.add(name)
         if self.start > lineno:
             self.prewritten.add(name)
-        if self.end < lineno:
+        if self.end < lineno and not self.post_conditional:
+            # a write that may not happen does not shield a later read
             self.postwritten.add(name)
 
     def _FunctionDef(self, node):
@@ -1014,12 +1016,16 @@ class _FunctionInformationCollector(ast.RopeNodeVisitor):
     @contextmanager
     def _handle_conditional_context(self, node):
         was_conditional = self.conditional
+        was_post_conditional = self.post_conditional
         if self.start <= node.lineno <= self.end:
             self.conditional = True
+        if node.end_lineno > self.end:
+            self.post_conditional = True
         try:
             yield
         finally:
             self.conditional = was_conditional
+            self.post_conditional = was_post_conditional
 
     @contextmanager
     def _handle_loop_context(self, node):
